@@ -11,4 +11,14 @@ bad = common.forbidden_scan()
 if bad:
     print("forbidden constructs:", bad); sys.exit(1)
 PY
+# data tables regenerated from /repo's current source (Gen_*.v, git-ignored): every harness/gen_*.py and harness/*_gen.py
+for g in harness/gen_*.py harness/*_gen.py; do
+  [ -f "$g" ] || continue
+  echo "generator: $g"; PYTHONPATH=/repo/src PYTHONHASHSEED=0 /venv/bin/python "$g"
+done
+/venv/bin/python - <<'PY'
+import sys; sys.path.insert(0, "harness")
+import common
+common.coq_project()
+PY
 cd coq && timeout 3000 make -j16
